@@ -819,7 +819,7 @@ def c14(ctx, rep):
     sub = Report("C18", quiet=True)
     c18(ctx, sub, with_k3=False)
     for o in sub.obligations:
-        if o["clause"] in ("C18.valid-alphabet", "C18.validated-before-tables", "C18.validated-before-indexing", "C18.refusal", "C18.raises-valueerror-only", "C18.extra-total", "C18.alpha-num-inverse", "C18.gap-decode-guard", "C18.decode-prelude", "C18.decode-chain", "C18.decode-result"):
+        if o["clause"] in ("C18.valid-alphabet", "C18.validated-before-tables", "C18.validated-before-indexing", "C18.refusal", "C18.raises-valueerror-only", "C18.extra-total", "C18.alpha-num-inverse", "C18.gap-decode-guard", "C18.decode-prelude", "C18.decode-chain", "C18.decode-result", "C18.encode-prefix", "C18.table-read-guarded"):
             rep.ob("C14.K3." + o["clause"].split(".", 1)[1], o["construct"], o["ok"], o["detail"], o["where"], o.get("witness"), key="C14.K3.%s|%s" % (o["clause"].split(".", 1)[1], o["construct"]))
     # the AS map is read with every number the pattern can match (same list), parent directories exist before the output is opened
     from .checks_pipe import import_clauses, c16 as _c16
